@@ -70,6 +70,10 @@ func Oracle(tr *udpx.Trace) (string, []*engine.Finding) {
 				}
 				a = nil
 				live[op.C] = nil
+				// "the entry removed": the client's next valid datagram opens a new association
+				if op.Mod == "" && op.Raw == nil && op.Key >= 0 && len(st.NewSocks) != 1 {
+					add("entry-not-removed", "step %d %s at %v: the client's association has ended, yet its next datagram did not open a new one (%d new sockets, %d datagrams forwarded)", i, op, now, len(st.NewSocks), len(st.TargetRecv))
+				}
 			}
 			if len(st.TargetRecv) == 0 && (len(st.NewSocks) == 1 || (a != nil && st.AliveBefore)) && strings.HasPrefix(op.Mod, "raw:") {
 				// an authenticated, allowed datagram whose write to the target failed: it opened or used
